@@ -8,24 +8,41 @@
   Trees are what `Html::parse` hands to the sanitizer (html5ever's tokenizer, tree builder and
   serializer are external and not modelled). `attrs` is the element's
   `BTreeSet<Attribute>`: a list in the set's iteration order, i.e. ascending by
-  (`qual`, `name`, `value`), where `qual` is an order-embedding key of the attribute's
-  prefix/namespace (constant for ordinary HTML attributes). The sanitizer only ever looks at the
-  local name (`name`) and the `value`, but the set's order decides which attribute a loop meets
-  first, and equality of whole attributes decides what `remove`/`take`/`insert` do.
+  (`pfx`, `ns`, `name`, `value`) — the derived `Ord` of `Attribute { name: QualName { prefix,
+  ns, local }, value }`. Ordinary HTML attributes have no prefix and the empty namespace;
+  html5ever gives `xlink:href`, `xml:lang`, `xmlns`, `xmlns:xlink` inside SVG/MathML content a
+  namespace (and the serializer writes them with their prefix). The sanitizer looks at the local
+  name (`name`), the `value` and — in the attribute allow-list check — at whether the namespace is
+  empty; the set's order decides which attribute a loop meets first, and equality of whole
+  attributes decides what `remove`/`take`/`insert` do.
 -/
 import RumaModel.Model.Json
 namespace Ruma.Html
 
 structure Attr where
-  qual : Str
+  /-- `name.prefix : Option<Prefix>` -/
+  pfx : Option Str := none
+  /-- `name.ns : Namespace` (`ns!()` = the empty string for HTML attributes) -/
+  ns : Str := []
+  /-- `name.local` -/
   name : Str
   value : Str
   deriving DecidableEq, Repr, Inhabited
 
-/-- The derived `Ord` of `html5ever::Attribute`: lexicographic on (prefix/ns, local name, value). -/
+/-- `Option<Prefix>`'s derived order: `None` first, then by string. -/
+def optStrLt : Option Str → Option Str → Bool
+  | none, some _ => true
+  | some a, some b => decide (a < b)
+  | _, none => false
+
+/-- The derived `Ord` of `html5ever::Attribute`: lexicographic on (prefix, ns, local name, value). -/
 def Attr.lt (a b : Attr) : Bool :=
-  decide (a.qual < b.qual) || (a.qual == b.qual &&
-    (decide (a.name < b.name) || (a.name == b.name && decide (a.value < b.value))))
+  optStrLt a.pfx b.pfx || (a.pfx == b.pfx &&
+    (decide (a.ns < b.ns) || (a.ns == b.ns &&
+      (decide (a.name < b.name) || (a.name == b.name && decide (a.value < b.value))))))
+
+/-- `attr.name.ns == ns!()`: an attribute without namespace, i.e. an HTML attribute. -/
+def Attr.isHtml (a : Attr) : Bool := a.ns.isEmpty
 
 /-- `NodeData::Element` with its children, `NodeData::Text`, `NodeData::Other` (comments,
 processing instructions). -/
@@ -364,7 +381,9 @@ def attrCtx (L : Lists) (c : Cfg) (name : Str) : AttrCtx where
 /-- The body of the `filter_map` closure for one attribute. -/
 def attrAction (x : AttrCtx) (a : Attr) : Option AttrAction :=
   if optContains x.removeAttrs a.name then some (.remove a)
-  else if x.whitelistAttrs && !optContains x.listAllow a.name && !optContains x.modeAllow a.name then
+  else if x.whitelistAttrs &&
+      (!a.isHtml || (!optContains x.listAllow a.name && !optContains x.modeAllow a.name)) then
+    -- the lists hold names of HTML attributes: an attribute in a namespace is never on them
     some (.remove a)
   else if a.name == className then
     let classes := splitWs a.value
